@@ -481,13 +481,27 @@ def _rule_getitem(check, repo: Repo, mod) -> None:
     if len(stores) != 1:
         raise AnalysisError("Dataset.__getitem__: expected one sampling update in the step loop")
     s = stores[0]
-    mult_step = isinstance(s.op, ast.Mult) and unparse(s.value) == f"{xvar}.step"
+    # the entry whose step is used: the loop's own entry variable, or a local bound to index[<axis variable of the loop>]
+    iparam = func_params(fn)[1]
+    entry_ok, over_kept = False, False
+    if isinstance(s.value, ast.Attribute) and s.value.attr == "step" and isinstance(s.value.value, ast.Name):
+        ev = s.value.value.id
+        if ev == xvar and unparse(loop.iter) in (f"enumerate({iparam})", iparam):
+            entry_ok = True
+        else:
+            edefs = [d for d in definitions(loop, ev) if isinstance(d, ast.AST)]
+            if len(edefs) == 1 and isinstance(edefs[0], ast.Subscript) and unparse(edefs[0].value) == iparam and isinstance(edefs[0].slice, ast.Name) and edefs[0].slice.id == xvar \
+                    and isinstance(loop.iter, ast.Call) and call_name(loop.iter) == "enumerate" and loop.iter.args and unparse(loop.iter.args[0]) == kname:
+                entry_ok, over_kept = True, True  # for out_axis, in_axis in enumerate(kept_axes): idx = index[in_axis]
+    mult_step = isinstance(s.op, ast.Mult) and entry_ok
     check.decide(mult_step, "C03-R6", "Dataset.__getitem__: sampling of a stepped axis is multiplied by the step", unparse(s), mod.line(s),
-                 fail_detail=f"`{unparse(s)}` does not multiply by {xvar}.step")
+                 fail_detail=f"`{unparse(s)}` does not multiply by the step of the index entry of the axis being visited")
     pos = s.target.slice
     verdict = None
     why = ""
-    if isinstance(pos, ast.Name):
+    if over_kept and isinstance(pos, ast.Name) and pos.id == ivar:
+        verdict, why = True, f"the loop enumerates `{kname}`: position {ivar} is the kept position of axis {xvar}"
+    if verdict is None and isinstance(pos, ast.Name):
         pdefs = [d for d in definitions(loop, pos.id)]
         outer = [d for d in definitions(fn, pos.id)]
         if any(isinstance(d, ast.AST) and unparse(d) == f"{kname}.index({ivar})" for d in pdefs):
@@ -543,7 +557,7 @@ def _rule_getitem(check, repo: Repo, mod) -> None:
     if verdict is None:
         raise AnalysisError(f"Dataset.__getitem__: position expression `{unparse(pos)}` of the sampling update not understood")
     check.decide(verdict, "C03-R6", "Dataset.__getitem__: the step scales the kept position of the stepped axis", why, mod.line(s),
-                 fail_detail=why)
+                 fail_detail=why, definite=True)  # a False verdict is only produced by a recognised counting idiom whose predicate differs from the kept-axes predicate
     # class selection
     txt = unparse(fn)
     ok = "cls = type(self)" in txt and "self._registry[out_ndim]" in txt and "cls = Dataset" in txt
